@@ -300,7 +300,7 @@ def upbTableOrthonormal (t : UPBTable) : Bool :=
 /-! ### `get_upb_product` and `upb_to_bes` over the Gaussian rationals (exact on the binary64 values of the tables) -/
 
 /-- `get_upb_product` (`upb.py:26-29`): row `a` of the result is the Kronecker product of the rows `a` of the parties. -/
-def upbProductRow (rows : List (List QI)) : List QI :=
+def upbProductRow {α : Type} [Mul α] [One α] (rows : List (List α)) : List α :=
   rows.foldl (fun acc v => acc.flatMap fun x => v.map fun y => x * y) [1]
 
 section upbgeneric
